@@ -156,7 +156,7 @@ class RestrictedRegistry:
             if 'target_info' in self._name_set and self._registry._target_info:
                 target_info_metric = self._registry._target_info_metric()
             for name in self._name_set:
-                if name != 'target_info' and name in self._registry._names_to_collectors:
+                if name in self._registry._names_to_collectors:
                     collectors.add(self._registry._names_to_collectors[name])
         if target_info_metric:
             yield target_info_metric
